@@ -58,11 +58,11 @@ def gen_number(ch, mag, positive=False, allow_zero=True):
     return txt
 
 
-def gen_args(ch, letter, mag):
+def gen_args(ch, letter, mag, arc_zero=True):
     u = letter.upper()
     if u == "A":
-        rx = gen_number(ch, mag, positive=not ch.coin(0.05), allow_zero=ch.coin(0.1))
-        ry = gen_number(ch, mag, positive=not ch.coin(0.05), allow_zero=ch.coin(0.1))
+        rx = gen_number(ch, mag, positive=not (arc_zero and ch.coin(0.05)), allow_zero=arc_zero and ch.coin(0.1))
+        ry = gen_number(ch, mag, positive=not (arc_zero and ch.coin(0.05)), allow_zero=arc_zero and ch.coin(0.1))
         rot = ch.choice(["0", "0", "30", "-45", "90", "19", "123.5", "360", "1e1"])
         return [rx, ry, rot, ch.choice("01"), ch.choice("01"), gen_number(ch, mag), gen_number(ch, mag)]
     return [gen_number(ch, mag) for _ in range(ARGC[u])]
@@ -73,7 +73,7 @@ def gen_args(ch, letter, mag):
 # --------------------------------------------------------------------------
 
 
-def gen_cmds(ch, n_cmds, mag=None, leading_move=True, letters=None, allow_zc=True, max_groups=3):
+def gen_cmds(ch, n_cmds, mag=None, leading_move=True, letters=None, allow_zc=True, max_groups=3, arc_zero=True):
     """List of commands: {"c": letter, "g": [[spelling,...],...], "zc": 0|1}.
 
     zc=1: the final coordinate pair of the last group is replaced by an inline
@@ -92,7 +92,7 @@ def gen_cmds(ch, n_cmds, mag=None, leading_move=True, letters=None, allow_zc=Tru
             cmds.append({"c": c, "g": [], "zc": 0})
             continue
         ng = 1 if ch.coin(0.75) else ch.int(2, max_groups)
-        g = [gen_args(ch, c, mag) for _ in range(ng)]
+        g = [gen_args(ch, c, mag, arc_zero) for _ in range(ng)]
         zc = 0
         if allow_zc and c.upper() in "LTCSQA" and ch.coin(0.04):
             zc = 1
@@ -366,10 +366,3 @@ FRAGMENTS = [
     "l 1,1", "L 1,1", "c 1,1 2,2 3,3", "q 1,1 2,2", "z z", "z 5", "Z 5,5", "L z", "C z", "C 1,1 z", "A 1,1 0 0 1 z",
     "h z", "V z", "h 1 2 3", "v-1-2", "t z", "M z", "m z",
 ]
-
-
-def apply_fault(ch, toks, s, kind):
-    """Apply one fault. Token-level kinds act on toks and re-render is the
-    caller's job; char-level kinds act on s. Returns (toks, s, descriptor)
-    where exactly one of toks/s changed; descriptor is JSON-serialisable."""
-    raise NotImplementedError
